@@ -184,22 +184,25 @@ def expected_scaled(w, path):
     try:
         if ch.type == 'daqmx':
             scalers = {sid: scalemodel.raw_fractions(ch, sid) for sid in ch.scalers}
-            return scalemodel.evaluate(scales, None, scalers), scales
+            return scalemodel.evaluate(scales, None, scalers, with_magnitudes=True), scales
         if ch.type not in scalemodel.SCALABLE:
             return 'skip', scales
-        return scalemodel.evaluate(scales, scalemodel.raw_fractions(ch)), scales
+        return scalemodel.evaluate(scales, scalemodel.raw_fractions(ch), with_magnitudes=True), scales
     except (KeyError, IndexError, ValueError, OverflowError):
         return 'skip', scales
 
 
 def close_enough(arr, exp, f32):
+    exp, mags = exp
     if len(arr) != len(exp):
         return 'length %d, expected %d' % (len(arr), len(exp))
     rel = 2e-5 if f32 else 1e-10
     for i, (a, e) in enumerate(zip(arr, exp)):
         a = float(a)
         e = float(e)
-        if math.isnan(a) or abs(a - e) > rel * max(1.0, abs(e)) + (1e-4 if f32 else 1e-9):
+        # relative to the largest intermediate magnitude: cancellation between huge intermediates is legitimate
+        # floating-point behaviour, a wrong formula or wiring is off by far more
+        if math.isnan(a) or abs(a - e) > rel * max(1.0, abs(e), float(mags[i])) + (1e-4 if f32 else 1e-9):
             return 'value %d is %r, reference evaluator gives %r' % (i, a, e)
     return None
 
